@@ -94,7 +94,7 @@ Proof.
   assert (Hstk : m_stack m1 = [reify_e en a e]) by (subst m1; rewrite after_e_stack, Hst; reflexivity).
   assert (Hpr1 : c_props (m_ctx m1) = props) by (subst m1; destruct m as [? ? ?]; exact Hpr).
   assert (Hs : exists r', step d ps r1 m1 = Ok (ps + 2, r', after_s en props a (SSet t e) m)).
-  { destruct t as [i|i|n|n]; cbn [compile_store wf_target] in *; destruct Ht as [Ht1 Ht2].
+  { destruct t as [i|i|n|n|n]; cbn [compile_store wf_target] in *; destruct Ht as [Ht1 Ht2].
     - (* local *)
       apply (step_2 d ps r1 m1 (b 82) (b (scaled i)) "AssignLocalVariableOpcode" "" OAssignLocal (after_s en props a (SSet (TLoc i) e) m) Hcs);
         [vm_compute; reflexivity | reflexivity |].
@@ -125,6 +125,14 @@ Proof.
         try (destruct m as [? [? ? ? ? ? ? ?] ?]; reflexivity). exact (eq_sym Hst).
     - (* property *)
       apply (step_2 d ps r1 m1 (b 80) (b (Z.of_nat n)) "AssignPropertyOpcode" "" OAssignProperty (after_s en props a (SSet (TProp n) e) m) Hcs);
+        [vm_compute; reflexivity | reflexivity |].
+      intros p2. cbn [process]. rewrite u8_b by lia. rewrite Hnm, nth_name_ok by exact Ht1. cbn [bind].
+      unfold pop. rewrite Hstk. cbn [bind]. rewrite Hpr1. fold (nm en n). f_equal.
+      apply mstate_eq2; [exact (eq_sym Hst) | subst m1; destruct m as [? ? ?]; reflexivity |].
+      unfold after_s, stmt_assign, add_stmt, with_stack. cbn [m_fn reify_s target_node globals_s]. subst m1.
+      rewrite app_nil_r. destruct m as [st0 [? ? ? ? ? ? ?] cx]. reflexivity.
+    - (* property by name: the same class under its second opcode *)
+      apply (step_2 d ps r1 m1 (b 96) (b (Z.of_nat n)) "AssignPropertyOpcode" "" OAssignProperty (after_s en props a (SSet (TByName n) e) m) Hcs);
         [vm_compute; reflexivity | reflexivity |].
       intros p2. cbn [process]. rewrite u8_b by lia. rewrite Hnm, nth_name_ok by exact Ht1. cbn [bind].
       unfold pop. rewrite Hstk. cbn [bind]. rewrite Hpr1. fold (nm en n). f_equal.
